@@ -44,6 +44,7 @@ def norm(spec):
     s.setdefault("err", "default")
     s.setdefault("layout", "grouped")
     s.setdefault("cap_alias", False)
+    s.setdefault("explicit_enabled", False)  # add enabled=True to every contract decorator (C15: interpreter modes)
     s.setdefault("foreign", None)  # a foreign functools.wraps decorator on the leaf: None|top|mid|bottom
     s.setdefault("post_old", "all")  # do postcondition *conditions* ask for OLD ("all") or only the error factories ("none")
     for lv in s["levels"]:
@@ -148,6 +149,10 @@ def cond_names(spec, li):
 
 
 def _err_arg(spec, name):
+    return _err_arg0(spec, name) + (", enabled=True" if spec.get("explicit_enabled") else "")
+
+
+def _err_arg0(spec, name):
     err = spec["err"]
     if err == "default":
         return ""
@@ -218,7 +223,7 @@ def render(spec):
                 c = "lambda result, {0}: lam('post', '{1}', {0}, result)".format(A, name)
             ens.append("@icontract.ensure({}{})".format(c, _err_arg(spec, name)))
         for name in snaps:
-            snp.append("@icontract.snapshot({0}, name='{0}')".format(name))
+            snp.append("@icontract.snapshot({0}, name='{0}'{1})".format(name, ", enabled=True" if spec.get("explicit_enabled") else ""))
         # top -> bottom; decorators are applied bottom-up so index 0 must be nearest the def
         if spec["layout"] == "grouped":
             lines = list(reversed(snp)) + list(reversed(req)) + list(reversed(ens))
